@@ -327,6 +327,7 @@ package ddsketch
 //@   after store.Store.DecodeAndMergeWith#1 ghost allOK := allOK && $result == nil
 //@   after store.Store.DecodeAndMergeWith#2 ghost allOK := allOK && $result == nil
 //@   after encoding.DecodeVarfloat64#1 assume $result1 == nil ==> finite($result) && $result >= 0.0
+//@   after mapping.Decode#1 assume $result1 == nil ==> mapping.MRange($result)
 //@   loop 1 invariant allOK && !mismatch && b != nil && KInvM(s) && KCount(s) >= old(KCount(s)) && s.positiveValueStore == old(s.positiveValueStore) && s.negativeValueStore == old(s.negativeValueStore) && footprintStable(s)
 //@   loop 1 invariant old(s.IndexMapping) != nil ==> s.IndexMapping != nil
 //@   loop 1 decreases len(*b)
